@@ -10,18 +10,19 @@ import (
 )
 
 // Value is one of:
-//   *term.Term   bool / integers / float64 (sort F64) / float32 (carried as BV32 bits)
-//   Ptr          pointer
-//   Slice        slice
-//   Str          string
-//   Iface        interface value
-//   StructV      struct value
-//   ArrayV       array value
-//   *Closure     func value (nil pointer = nil func)
-//   *MapV        map (nil pointer = nil map)
-//   *ChanV       channel
-//   Tuple        multiple results
-//   *ssa.Builtin builtin
+//
+//	*term.Term   bool / integers / float64 (sort F64) / float32 (carried as BV32 bits)
+//	Ptr          pointer
+//	Slice        slice
+//	Str          string
+//	Iface        interface value
+//	StructV      struct value
+//	ArrayV       array value
+//	*Closure     func value (nil pointer = nil func)
+//	*MapV        map (nil pointer = nil map)
+//	*ChanV       channel
+//	Tuple        multiple results
+//	*ssa.Builtin builtin
 type Value interface{}
 
 type Cell struct {
@@ -79,6 +80,7 @@ type ChanV struct {
 	Buf    []Value
 	Tag    interface{}
 	OnFire func() // runs when a select/receive observes the channel ready
+	Cap    int    // buffer size of a channel made by the code (generic channels); -1 = not tracked
 }
 
 func typeWidth(t types.Type) (w int, signed bool, ok bool) {
